@@ -82,29 +82,22 @@ def monitor(case, obs):
         if len(l) > w: return "line %r is longer than the width %d" % (l, w)
     src = [c for c in t if not c.isspace()]; out = [c for l in L for c in l if not c.isspace()]
     if src != out: return "non-blank characters not conserved in order: source %r rendered %r" % ("".join(src)[:80], "".join(out)[:80])
-    # line-break structure: per source line its own lines; a blank source line -> one empty line; no other empty line
+    # line-break structure (C11_breaks on the implementation): source line by source line its own wrap (A-TW: textwrap is the
+    # reference for the wrap of ONE line), a source line that wraps to nothing giving exactly one empty line, no other empty line
     import textwrap
-    if "\n" in t:
-        exp_n = 0
-        segs = t.split("\n")
-        pos = 0
-        for seg in segs:
-            nb = [c for c in seg if not c.isspace()]
-            if not nb:
-                # a source line with nothing but blanks: exactly one line, holding no non-blank character
-                if pos >= len(L): return "source line %r produced no line" % seg
-                if any(not c.isspace() for c in L[pos]): return "line structure broken at blank source line"
-                if all(c in "\t\n\x0b\x0c\r " for c in seg) and L[pos] != "": return "blank source line rendered as %r" % L[pos]
-                pos += 1
-            else:
-                got = []
-                while pos < len(L) and len(got) < len(nb):
-                    if L[pos] == "": return "spurious empty line inside the wrap of source line %r" % seg[:40]
-                    got += [c for c in L[pos] if not c.isspace()]; pos += 1
-                if got != nb: return "a rendered line mixes two source lines (source line %r)" % seg[:40]
-        if pos != len(L): return "extra lines after the last source line: %r" % L[pos:pos + 3]
-    else:
-        if any(l == "" for l in L): return "empty line in the rendering of a text without line break"
+    segs = t.split("\n")
+    exp = []
+    for seg in segs:
+        ws = textwrap.wrap(seg, w)
+        if any(x == "" for x in ws): return "textwrap produced an empty line for %r" % seg[:40]
+        exp += ws if ws else [""]
+    if len(segs) == 1 and exp == [""]: exp = []
+    if L != exp:
+        k = next((i for i in range(min(len(L), len(exp))) if L[i] != exp[i]), min(len(L), len(exp)))
+        return "line structure differs from the per-source-line wrap at line %d: got %r expected %r" % (k, L[k:k + 3], exp[k:k + 3])
+    for seg in segs:
+        if all(c in "\t\n\x0b\x0c\r " for c in seg) and textwrap.wrap(seg, w) != []:
+            return "a blank source line %r wraps to %r" % (seg, textwrap.wrap(seg, w))
     # "exactly the greedy word-wrap": independent reference on the plain subset (ASCII words no longer than w, blanks)
     if t.isascii() and all(c.isalnum() or c == " " or c == "\n" for c in t):
         segs = t.split("\n")
